@@ -3,6 +3,8 @@ import asyncio
 import itertools
 import struct
 
+from bleak.exc import BleakError
+
 from hypothesis import strategies as st
 
 import aiohomekit.controller.ble.key as key_mod
@@ -675,6 +677,11 @@ def run_c08_ble(case, R):
 
     async def main(loop):
         w = BleWorld(loop, k=case.get("k", 0), att_payload=case.get("att", 155))
+        if case.get("disc"):
+            # the stack's disconnect() fails with one of the exceptions the library's retry set names; the link is dead or still reports connected
+            exc = {"BleakError": BleakError, "EOFError": EOFError, "BrokenPipeError": BrokenPipeError, "TimeoutError": asyncio.TimeoutError, "AttributeError": AttributeError}[case["disc"][0]]
+            w.on_client = lambda c: setattr(c, "disconnect_fails", (exc, bool(case["disc"][1])))
+            R.cls("c08-ble:disconnect-fails")
         try:
             p = w.pairing
             val = 0
@@ -732,6 +739,11 @@ def enum_c08_ble(tier):
             yield {"ops": [["get"], ["cancel", w_, k_], ["cancel", 1 - w_, (k_ * 3) % 16], ["put"], ["get"]], "att": 40}
     for k_ in range(6):
         yield {"ops": [["get"], ["gatt-error", k_], ["put"], ["get"], ["gatt-error", k_ + 1], ["get"]]}
+    for exc in ("BleakError", "EOFError", "BrokenPipeError", "TimeoutError", "AttributeError"):
+        for alive in (0, 1):
+            for k_ in (1, 3, 5, 8):
+                yield {"ops": [["put"], ["cancel", 1, k_], ["get"], ["put"], ["cancel", 0, k_ + 1], ["get"]], "disc": [exc, alive]}
+            yield {"ops": [["get"], ["gatt-error", 1], ["put"], ["get"]], "disc": [exc, alive]}
 
 
 C08_BLE_LAYERS = [Layer("ble-abandoned-requests", run_c08_ble, enumerate=enum_c08_ble, exhaustive=True,
